@@ -13,7 +13,7 @@ KINDS = {
     "C01": ["EpLive", "SearchLive", "SearchScore", "SearchMeta", "SearchOrder", "SearchDup", "SearchK",
             "SearchEmpty", "SearchErr"],
     "C02": ["Result", "BatchErrs", "Map", "Len", "Bytes", "Size", "Outcome_panic", "Outcome_fatal", "Outcome_lost"],
-    "C07": ["SmallExact"],
+    "C07": ["SmallExact", "RecallFloor"],
     "C08": ["RtErr", "RtItems", "RtLinks", "RtEp", "RtLen", "RtBytes", "RtStale", "RtUnread",
             "RtItems2", "RtLinks2", "RtEp2", "RtLen2", "RtBytes2", "RtStale2"],
 }
@@ -114,6 +114,8 @@ def run_family(ctx, phases=("hnsw", "random", "selftest")):
         total += streams_phase(ctx, part)
     if "random" in phases:
         total += random_phase(ctx, part)
+    if "recall" in phases:
+        total += recall_phase(ctx, part)
     if "selftest" in phases:
         selftest(ctx, part)
     ctx.cov["traces_validated_against_impl"] = total
@@ -308,6 +310,38 @@ def streams_phase(ctx, part):
         if ci == 0:
             ctx.sample({"stream_roundtrip": {k: evs[3][k] for k in evs[3] if k != "pre"}})
     return total
+
+
+def recall_phase(ctx, part):
+    """C07 clause 2: statistical, not model-checked - the specification contributes only the threshold."""
+    quick = ctx.tier == "quick"
+    # judged: configurations in which the unchanged tree measures 0.86-0.98 over seeds (margin >= 0.06 to the floor);
+    # measured only: 64 dimensions, where iid normal vectors give the UNCHANGED tree 0.66-0.84 with Search(k=10)
+    # (ef = 20) - the clause as literally stated does not hold there, which is recorded, not judged (DESIGN 10.6)
+    judged = [(2000, 8, "euclidean"), (2000, 8, "cosine"), (2000, 32, "euclidean")] if quick else \
+             [(2000, 8, "euclidean"), (4000, 8, "manhattan"), (2000, 8, "cosine"), (2000, 32, "euclidean"), (2000, 32, "cosine"), (4000, 8, "cosine")]
+    measured = [(3000, 64, "manhattan")] if quick else [(3000, 64, "manhattan"), (4000, 64, "euclidean"), (4000, 64, "cosine"), (4000, 32, "manhattan")]
+    runs = judged + measured
+    lines = []
+    for i, (n, dim, m) in enumerate(runs):
+        out = ctx.path("recall-%d.ndjson" % i)
+        ctx.run([part, "recall", str(n), str(dim), m, str(ctx.seed * 31 + i), out], timeout=1500)
+        lines.append(open(out).read())
+    trace = ctx.path("recall.ndjson")
+    open(trace, "w").write("".join(lines))
+    viols, nev = vlib.validate_trace(ctx, "HnswTrace", "HnswTrace.cfg", trace, lambda l: True)
+    evs = vlib.read_ndjson(trace)
+    ctx.cov["recall_measurements"] = [{"n": e["n"], "dim": e["dim"], "metric": e["metric"], "recall_at_10": round(e["hits"] / (e["queries"] * e["k"]), 3),
+                                       "judged": (e["n"], e["dim"], e["metric"]) in judged} for e in evs]
+    ctx.notes.append("clause 2 (recall floor) is a measurement, not model-checked")
+    for v in viols:
+        e = evs[v[0]]
+        if (e["n"], e["dim"], e["metric"]) not in judged:
+            continue
+        ctx.finding("RecallFloor@%s/dim=%d" % (e["metric"], e["dim"]), "mean recall@10 = %.3f on %d random %d-dimensional vectors (%s), floor 0.8"
+                    % (e["hits"] / (e["queries"] * e["k"]), e["n"], e["dim"], e["metric"]), {"event": e})
+    ctx.log("recall: %s" % ctx.cov["recall_measurements"])
+    return len(evs)
 
 
 def sample_history(ctx, trace):
